@@ -1,9 +1,12 @@
 import SockModel.Drive.Common
 import SockModel.Model.Lifecycle
-/-! Driver for C17: validates lifecycle histories of `harness/scen/lifecycle.cpp` against
-`Model/Lifecycle.lean` and evaluates the property on the observations:
-no crash (sanitizer / assertion / signal) on a legal history; no handler after destruction; every
-future of a destroyed socket is value / exn / broken at once, none is left pending. -/
+import SockModel.Spec.C17
+/-! Driver for C17: parses the transcripts of `harness/scen/lifecycle.cpp` into the typed observations of
+`Spec/C17.lean`, evaluates the property with exactly the functions defined there (`specStep`, `specEnd`:
+no crash on a legal history; no handler after destruction; every future of a destroyed socket is value /
+exn / broken at once, none is left pending - proved there to accept every trace of the model,
+`model_satisfies_spec`) and validates the history against `Model/Lifecycle.lean` (correspondence: refusals =
+illegal operations, handler log and future states).  No property clause lives here. -/
 namespace SockModel.Drive.C17
 open SockModel SockModel.Drive SockModel.Lifecycle
 
@@ -32,6 +35,32 @@ def parseOp (w : List String) : Option Op :=
   | ["dpool"] => some .destroyPool
   | _ => none
 
+/-- one observation line (the words after `->`) as a typed item -/
+def parseItem (o : List String) : Item :=
+  match o with
+  | "crash" :: w => .crash (" ".intercalate w)
+  | ["fut", id, st] =>
+    match id.toNat? with
+    | some id => .fut id (match st with
+        | "pending" => .pending | "value" => .value | "exn" => .exn | "broken" => .broken | _ => .other)
+    | none => .other
+  | [k, i] =>
+    match i.toNat? with
+    | some i =>
+      match k with
+      | "recv" => .handler .recv i
+      | "recvfrom" => .handler .recvFrom i
+      | "conn" => .handler .conn i
+      | "disc" => .handler .disc i
+      | "todo" => .todo i
+      | "throw" => .threw
+      | _ => .other
+    | none => if k == "throw" then .threw else .other
+  | ["skipped"] => .skipped
+  | ["done"] => .done
+  | "throw" :: _ => .threw
+  | _ => .other
+
 def evWords : Ev → List String
   | .recv s => ["recv", toString s]
   | .recvFrom s => ["recvfrom", toString s]
@@ -54,78 +83,40 @@ def takeObs : List String → List (List String) → List (List String) × List 
     | some w => takeObs rest (w :: acc)
     | none => (acc.reverse, l :: rest)
 
-/-- what the harness destroys at the end of a history, in its order -/
-def implicitEnd (s : St) (socks todos drvs : List Nat) : List Op :=
-  (socks.flatMap fun i => if (s.sock i).alive then [Op.release i, Op.destroySock i] else []) ++
-  (todos.flatMap fun t => if (s.todo t).handle then [Op.dropTodo t] else []) ++
-  (drvs.flatMap fun d => if (s.drv d).alive then [Op.destroyDriver d] else []) ++
-  (if s.poolAlive then [Op.destroyPool] else [])
-
-/-- observation-only bookkeeping for the property -/
-structure Spec where
-  dead : List Nat := []                 -- sockets known to be destroyed
-  futOf : List (Nat × Nat) := []        -- future id ↦ socket
-  resolved : List Nat := []
-  nfut : Nat := 0
-  selfDestroy : List Nat := []          -- sockets whose disconnect handler destroys them
-  ended : Bool := false
-
-def Spec.observe (sp : Spec) (obs : List (List String)) : Except String Spec :=
-  obs.foldlM (init := sp) fun sp o =>
-    match o with
-    | "crash" :: w => .error ("crash: " ++ " ".intercalate w)
-    | ["fut", id, st] =>
-      match id.toNat? with
-      | some id =>
-        if st == "pending" then .error s!"future {id} is still pending after its socket was destroyed (dangling)"
-        else if sp.resolved.contains id then .error s!"future {id} reported twice"
-        else .ok { sp with resolved := id :: sp.resolved }
-      | none => .ok sp
-    | [k, i] =>
-      if k == "recv" || k == "recvfrom" || k == "conn" || k == "disc" then
-        match i.toNat? with
-        | some i =>
-          if sp.dead.contains i then .error s!"handler '{k}' of socket {i} invoked after the socket was destroyed"
-          else if k == "disc" && sp.selfDestroy.contains i then .ok { sp with dead := i :: sp.dead }
-          else .ok sp
-        | none => .ok sp
-      else .ok sp
-    | _ => .ok sp
-
-/-- after the observations of an op: every future of a destroyed socket must have been reported -/
-def Spec.checkDangling (sp : Spec) : Except String Unit :=
-  match sp.futOf.find? (fun (id, s) => sp.dead.contains s && !sp.resolved.contains id) with
-  | some (id, s) => .error s!"future {id} of destroyed socket {s} was not released (neither value, exception nor broken promise)"
-  | none => .ok ()
-
-partial def go (s : St) (sp : Spec) (socks todos drvs : List Nat) (tags : List String) : List String → Verdict
-  | [] => if sp.ended then { tags := tags } else Verdict.spec "history did not run to its end (harness died without a report)" tags
+partial def go (m : Sys) (sp : SpecSt) (tags : List String) : List String → Verdict
+  | [] =>
+    match specEnd sp with
+    | .ok _ => { tags := tags }
+    | .error msg => Verdict.spec msg tags
   | l :: rest =>
     let w := words l
-    if w.isEmpty then go s sp socks todos drvs tags rest else
+    if w.isEmpty then go m sp tags rest else
     let (obs, rest') := takeObs rest []
+    let items := obs.map parseItem
     let isEnd := w == ["end"]
-    match (if isEnd then some [] else (parseOp w).map (fun o => [o])) with
+    let s := m.st
+    match (if isEnd then some (none : Option Op) else (parseOp w).map some) with
     | none =>
       match w with
-      | "->" :: "crash" :: x => Verdict.spec ("crash: " ++ " ".intercalate x) tags
+      | "->" :: "crash" :: x =>
+        match specStep sp (.stray (" ".intercalate x)) with
+        | .error msg => Verdict.spec msg tags
+        | .ok _ => Verdict.corr s!"unknown line {l}" tags
       | _ => Verdict.corr s!"unknown line {l}" tags
-    | some ops0 =>
-      let ops := if isEnd then implicitEnd s socks todos drvs else ops0
-      if obs == [["skipped"]] then
+    | some op? =>
+      let ops := match op? with | some op => [op] | none => implicitEnd s m.socks m.todos m.drvs
+      let o : Obs := match op? with | some op => .op l op items | none => .fin l items
+      if items == [.skipped] then
         -- the harness refuses ops that break a usage rule; the model must agree that it is one
-        if ops.all (fun op => !legalOp s op) then go s sp socks todos drvs ("skipped" :: tags) rest'
+        if ops.all (fun op => !legalOp s op) then
+          match specStep sp o with
+          | .ok sp' => go m sp' ("skipped" :: tags) rest'
+          | .error msg => Verdict.spec msg tags
         else Verdict.corr s!"harness skipped '{l}', which the model considers legal" tags
       else
       -- the property on the observations
-      let sp1 : Spec := match ops0 with
-        | [.send i] => if obs.any (·.head? == some "throw") then sp else
-            { sp with futOf := (sp.nfut, i) :: sp.futOf, nfut := sp.nfut + 1 }
-        | [.destroySock i] => { sp with dead := i :: sp.dead }
-        | [.mkSock i _ _ onDisc _ _] => if onDisc then { sp with selfDestroy := i :: sp.selfDestroy } else sp
-        | _ => if isEnd then { sp with dead := socks ++ sp.dead, ended := true } else sp
-      match (do let sp2 ← sp1.observe obs; sp2.checkDangling; pure sp2) with
-      | .error msg => Verdict.spec s!"after '{l}': {msg}" tags
+      match specStep sp o with
+      | .error msg => Verdict.spec msg tags
       | .ok sp2 =>
         -- legality (the generator only produces legal histories) and the model's prediction
         let step := ops.foldl (init := (s, true)) fun (st, ok) op => (exec .fixed st op, ok && legalOp st op)
@@ -134,34 +125,29 @@ partial def go (s : St) (sp : Spec) (socks todos drvs : List Nat) (tags : List S
         match s'.ub with
         | some why => Verdict.corr s!"model reaches undefined behaviour on a legal history at '{l}': {why}" tags
         | none =>
-          let mRaw := (s'.log.take (s'.log.length - s.log.length)).reverse
           -- the harness reports handler invocations as they happen and then, per op, the futures that became
-          -- ready in order of their ids
-          let mFuts := (mRaw.filterMap fun e => match e with | .fut id st => some (id, st) | _ => none)
-          let mFutsSorted := (mFuts.toArray.qsort (fun a b => a.1 < b.1)).toList.map fun (id, st) => Ev.fut id st
-          let mEvs := ((mRaw.filter fun e => match e with | .fut .. => false | _ => true) ++ mFutsSorted).map evWords
+          -- ready in order of their ids: `modelEvents`
+          let mEvs := (modelEvents s s').map evWords
           let oEvs := obs.filter (fun o => o != ["done"])
           if mEvs.length != oEvs.length || !((mEvs.zip oEvs).all fun (m, o) => evMatches m o) then
             Verdict.corr s!"after '{l}': implementation {oEvs}, model {mEvs}" tags
           else
-            let socks := match ops0 with | [.mkSock i ..] => socks ++ [i] | _ => socks
-            let todos := match ops0 with | [.mkTodo t ..] => todos ++ [t] | _ => todos
-            let drvs := match ops0 with | [.mkDriver d] => drvs ++ [d] | _ => drvs
-            let tag := match ops0 with
-              | [.send i] => if (s.sock i).alive && !((s.drv (s.sock i).drv).alive) then ["send.nodriver"]
+            let m' := match op? with | some op => m.record op s' | none => { m with st := s' }
+            let tag := match op? with
+              | some (.send i) => if (s.sock i).alive && !((s.drv (s.sock i).drv).alive) then ["send.nodriver"]
                   else if !((s.drv (s.sock i).drv).pfds.any (·.1 = i)) then ["send.unregistered"] else ["send"]
-              | [.destroySock i] => if (s.sock i).sendQ.isEmpty then ["dsock"] else ["dsock.pending"]
-              | [.destroyDriver d] => if (s.drv d).sockets.isEmpty && (s.drv d).todos.isEmpty then ["ddriver.empty"] else ["ddriver.busy"]
-              | [.step d] => if (s.drv d).sockets.isEmpty && (s.drv d).todos.isEmpty then ["step.empty"] else ["step"]
-              | [.cancel t] => if (s.drv (s.todo t).drv).todos.contains t then ["cancel"] else ["cancel.finished"]
-              | [.shift t] => if (s.drv (s.todo t).drv).todos.contains t then ["shift"] else ["shift.finished"]
+              | some (.destroySock i) => if (s.sock i).sendQ.isEmpty then ["dsock"] else ["dsock.pending"]
+              | some (.destroyDriver d) => if (s.drv d).sockets.isEmpty && (s.drv d).todos.isEmpty then ["ddriver.empty"] else ["ddriver.busy"]
+              | some (.step d) => if (s.drv d).sockets.isEmpty && (s.drv d).todos.isEmpty then ["step.empty"] else ["step"]
+              | some (.cancel t) => if (s.drv (s.todo t).drv).todos.contains t then ["cancel"] else ["cancel.finished"]
+              | some (.shift t) => if (s.drv (s.todo t).drv).todos.contains t then ["shift"] else ["shift.finished"]
               | _ => []
             let tag2 := mEvs.filterMap fun e => match e with
-              | ["disc", i] => some (if sp1.selfDestroy.contains (i.toNat?.getD 0) then "disc.selfdestroy" else "disc")
+              | ["disc", i] => some (if sp2.selfDestroy.contains (i.toNat?.getD 0) then "disc.selfdestroy" else "disc")
               | ["fut", _, st] => some ("fut." ++ st)
               | _ => none
-            go s' sp2 socks todos drvs (tag ++ tag2 ++ tags) rest'
+            go m' sp2 (tag ++ tag2 ++ tags) rest'
 
-def runCase (body : List String) : Verdict := go {} {} [] [] [] [] body
+def runCase (body : List String) : Verdict := go {} {} [] body
 
 end SockModel.Drive.C17
